@@ -80,6 +80,22 @@ Theorem C15_later_runs_never_poisoned : forall (H : fpr -> name) (enc : con -> b
 Proof. exact maybe_run_fix_never_poisoned. Qed.
 Print Assumptions C15_later_runs_never_poisoned.
 
+(* The atomic-store protocol is crash safe only with a RENAME.  shutil.move of a temporary file that
+   lives on another file system degrades to open-truncate + copy, i.e. (inside the cache directory)
+   to the in-place writer; a crash right after the truncation destroys the complete entry that was
+   stored before, even for the tolerant reader: refuted (compare C15_crash_safe, where the old entry
+   survives every crash point). *)
+Theorem C15_move_across_filesystems_refuted : forall (V : Type) (encode : V -> bytes) (decode : bytes -> option V)
+    (h : name) (old v : V) (f : fs) (mr : nat),
+  roundtrip V encode decode -> decode [] = None -> is_dir [] f = true ->
+  fs_get [h] f = Some (FFile (encode old)) ->
+  let f1 := crash_at 1 (setitem_ops_movex V encode (KS h) v) f in
+  fst (getitem_fix V decode (S mr) (mkDD [] true f) (KS h)) = Ok old /\
+  fst (getitem_fix V decode (S mr) (mkDD [] true f1) (KS h)) = KeyErr /\
+  fst (contains_fix V decode (S mr) (mkDD [] true f1) (KS h)) = false.
+Proof. exact movex_crash_loses_old_entry. Qed.
+Print Assumptions C15_move_across_filesystems_refuted.
+
 (* directory_split="auto" (the constructor's default) after a crash.  The fixed writer puts its
    temporary file NEXT TO the entry (inside the sub-directory for a split key), so whatever crash
    point: a split cache still shows directories only at its top level and is detected as split; a
@@ -113,6 +129,13 @@ Example C15_example_orphan_at_top_level :
   let f := [([], FDir); ([[1;2]], FDir); ([[1;2]; [3;4]], FFile [7;0])] in
   split_auto f = true /\ split_auto (fs_set [[46; 3; 4]] (FFile []) (fs_del [[1;2]] f)) = false.
 Proof. exact orphan_at_top_level_flips_layout. Qed.
+
+Example C15_example_move_across_filesystems :
+  let k := KS [1;2] in
+  let f := run_ops (setitem_ops_fix nat toy_enc k 1) fs0 in          (* an old entry: 1 *)
+  map (fun n => fst (getitem_fix nat toy_dec 3 (mkDD [] true (crash_at n (setitem_ops_movex nat toy_enc k 2) f)) k))
+      (seq 0 5) = [Ok 1; KeyErr; KeyErr; KeyErr; Ok 2].
+Proof. vm_compute. reflexivity. Qed.
 
 Example C15_example_fix_all_crash_points :
   let k := KT [[1;2]; [3;4]] in
